@@ -32,8 +32,12 @@ Does NOT require:
     counts - flagged `bounded` when it does not grow with repetitions, `grows` when it does;
   * values of documented per-command variables (c09_child.VOLATILE_ENV), contents of files the
     redirect names, exceptions/return codes of the command;
-  * terminal ownership: the case process has no controlling terminal and $XONSH_INTERACTIVE is
-    off (stated in the assumptions; tcsetpgrp hand-over is not exercised).
+  * in the main space the case process has no controlling terminal; terminal ownership is judged
+    in the TERMINAL family only: a session leader on a harness pty with $XONSH_INTERACTIVE on runs
+    uncaptured external commands {ok, fail, killed by a signal, missing} and their 2-stage pipelines
+    x {no flag, $XONSH_SUBPROC_CMD_RAISE_ERROR, @error_raise, @error_ignore} x {bare, ![ ]}; after 1
+    and 3 repetitions tcgetpgrp(tty) must be the shell's group and tcgetattr unchanged (keys
+    `tty-owner:<shape>:<flag>:<capture>`; a shell left stopped by SIGTTOU/SIGTTIN is a `hang[...]`).
 
 Violation keys: `<resource>[<detail>,<bounded|grows>]:<minimal kind signature>:<capture>:<redirect>
 [:fault=<call>#<n>@<thread role>:<error>]`.  Many inputs share a root cause, so a violating case
@@ -90,6 +94,34 @@ EARLY_THOROUGH = EARLY_QUICK + [
     ("ext_big", "ext_eat", "ext_head1"),
 ]
 
+# terminal hand-over family: the case process is a session leader whose controlling terminal is a
+# pty of the harness, $XONSH_INTERACTIVE is on; uncaptured foreground external commands get the
+# terminal (tcsetpgrp) and xonsh must take it back on every path, raising or not
+TTY_KINDS = ["ext_ok", "ext_fail", "ext_killed", "nosuch"]
+TTY_FLAGS = ["none", "cmd_raise", "@error_raise", "@error_ignore"]  # cmd_raise = $XONSH_SUBPROC_CMD_RAISE_ERROR
+TTY_CAPTURES = ["bare", "![]"]
+TTY_PAIRS_QUICK = [("ext_ok", "ext_fail"), ("ext_fail", "ext_ok"), ("ext_ok", "ext_killed"), ("ext_ok", "nosuch"), ("nosuch", "ext_fail"), ("ext_fail", "ext_fail")]
+
+
+def tty_space(thorough):
+    """[(stages, capture, flag)], simplest first."""
+    out = []
+    for k in TTY_KINDS:
+        for flag in TTY_FLAGS:
+            for cap in TTY_CAPTURES:
+                out.append(((k,), cap, flag))
+    pairs = list(itertools.product(TTY_KINDS, repeat=2)) if thorough else TTY_PAIRS_QUICK
+    for st in pairs:
+        for flag in TTY_FLAGS:
+            for cap in TTY_CAPTURES if thorough else ["bare"]:
+                out.append((tuple(st), cap, flag))
+    return out
+
+
+def _mk_tty_case(stages, cap, flag):
+    return {"stages": list(stages), "capture": cap, "redirect": "none", "fault": None, "reps": 3, "shims": False, "tty": True, "flag": flag}
+
+
 # class representative of a stage kind (first step of the key reduction); everything finally -> ext_ok
 REP = {
     "ext_fail": "ext_ok",
@@ -97,6 +129,7 @@ REP = {
     "ext_slowbig": "ext_ok",
     "ext_eat": "ext_ok",
     "ext_head1": "ext_ok",
+    "ext_killed": "ext_ok",
     "nonexec": "nosuch",
     "dir": "nosuch",
     "nonexec_rel": "nosuch",
@@ -125,6 +158,8 @@ CLAUSE = {
     "sigint-probe": "Ctrl-C still interrupts",
     "env": "environment unchanged apart from documented effects",
     "hang": "repeating a command cannot wedge the session",
+    "tty-owner": "terminal ownership unchanged (the shell is the terminal's foreground process group again)",
+    "tty-attrs": "terminal ownership unchanged (terminal attributes as before)",
 }
 
 # ------------------------------------------------------------------ space
@@ -235,7 +270,7 @@ def judge(res):
     """Observation -> {resource signature: {observed, expected}} (empty = session as found)."""
     v = {}
     if res.get("hang"):
-        v["hang"] = {"observed": {"what": "exec did not return within the case alarm" + (" (child had to be killed)" if res.get("hard") else ""), "stacks": res.get("hang_stacks", [])[:6]}, "expected": "command returns"}
+        v["hang[shell-stopped-by-terminal-signal]" if res.get("stopped") else "hang"] = {"observed": {"what": "exec did not return within the case alarm" + (" (child had to be killed)" if res.get("hard") else ""), "stacks": res.get("hang_stacks", [])[:6]}, "expected": "command returns"}
         if len(res.get("snaps", [])) < 3:
             return v
     s0, s1, s3 = res["snaps"][0], res["snaps"][1], res["snaps"][-1]
@@ -279,6 +314,12 @@ def judge(res):
         for k in sorted(set(s0["env"]) | set(s["env"])):
             if s0["env"].get(k) != s["env"].get(k):
                 v[f"env[{k}]"] = {"observed": {tag: s["env"].get(k)}, "expected": s0["env"].get(k)}
+    if "tty" in s0:
+        for tag, s in (("after_1", s1), ("after_3", s3)):
+            if s["tty"].get("owner") != "shell" and s0["tty"].get("owner") == "shell":
+                v["tty-owner"] = {"observed": {tag: s["tty"].get("owner") or s["tty"].get("error")}, "expected": "tcgetpgrp(terminal) == the shell's own process group"}
+            if s["tty"].get("attrs") != s0["tty"].get("attrs"):
+                v["tty-attrs"] = {"observed": {tag: s["tty"].get("attrs")}, "expected": s0["tty"].get("attrs")}
     if "probe_after" in res and res["probe_after"] != "KeyboardInterrupt":
         v[f"sigint-probe[{res['probe_after']}]"] = {"observed": {"self-sent SIGINT": res["probe_after"], "SIGINT handler": s3["handlers"]["SIGINT"]}, "expected": "KeyboardInterrupt in the main thread"}
     return v
@@ -302,6 +343,7 @@ def _run(case):
         "logs_equal": res.get("logs_equal", True),
         "fired": res.get("fired", 0),
         "deaths": res.get("thread_deaths", []),
+        "handed_over": res.get("handed_over", []),
         "stderr_tail": (res.get("term2_tail") or "")[-300:],
     }
 
@@ -325,7 +367,7 @@ def _fault_points(log):
 
 # Signature classes that can depend on real-time scheduling (several stage threads racing): they
 # are reported only when the same case shows them in 3 runs out of 3.
-CONFIRM = ("child-left", "thread-left", "sigint-probe", "fd-closed", "env", "cwd")
+CONFIRM = ("child-left", "thread-left", "sigint-probe", "fd-closed", "env", "cwd", "tty-")
 
 
 def _needs_confirmation(r):
@@ -407,7 +449,7 @@ class Reducer:
 
     def reduce(self, cid, sig, on_demand=True):
         path = []
-        on_demand = on_demand and sig != "hang"  # never go looking for further 20 s hangs
+        on_demand = on_demand and not sig.startswith("hang")  # never go looking for further 20 s hangs
         while True:
             if (cid, sig) in self.memo:
                 cid = self.memo[(cid, sig)]
@@ -456,6 +498,88 @@ def _reduce_worker(item):
 
 
 # ------------------------------------------------------------------ run / replay
+
+
+def _tty_simplifications(tid):
+    stages, cap, flag = tid
+    if cap != "bare":
+        yield (stages, "bare", flag)
+    for i, k in enumerate(stages):
+        if k == "ext_killed":
+            yield (stages[:i] + ("ext_fail",) + stages[i + 1 :], cap, flag)
+    if len(stages) >= 2:
+        yield (stages[1:], cap, flag)  # the last spec decides what is raised
+        yield (stages[:-1], cap, flag)
+
+
+def _tty_reduce(tid, sig, tres):
+    while True:
+        for cand in _tty_simplifications(tid):
+            r = tres.get(cand)
+            if r is not None and not r["deaths"] and sig in r["sigs"]:
+                tid = cand
+                break
+        else:
+            return tid
+
+
+def _run_tty_family(ctx, results):
+    """Terminal hand-over family (see TTY_* above).  Returns coverage numbers."""
+    why = H.tty_supported()
+    if why is not None:
+        ctx.assumptions.append(f"terminal hand-over family skipped in this environment: {why}")
+        return {"tty_cases": 0, "tty_skipped": why, "evaluations": 0, "nontrivial": 0}
+    space = tty_space(ctx.thorough)
+    cases = [_mk_tty_case(*t) for t in space]
+    res = common.pmap(_run, cases, ctx.jobs, chunk=2, init=_init, seed=ctx.seed)
+    tres = dict(zip(space, res))
+    todo = [t for t in space if tres[t]["sigs"]]
+    again = common.pmap(_run, [_mk_tty_case(*t) for t in todo for _ in range(2)], ctx.jobs, chunk=1, init=_init, seed=ctx.seed)
+    dropped = Counter()
+    steady = {}
+    for i, t in enumerate(todo):
+        r, runs = tres[t], again[2 * i : 2 * i + 2]
+        if r["deaths"]:
+            steady[t] = [d for d in r["deaths"] if all(d in a["deaths"] for a in runs)]
+            continue
+        for sig in list(r["sigs"]):
+            if not all(sig in a["sigs"] for a in runs):
+                dropped[sig.split("[")[0]] += 1
+                del r["sigs"][sig]
+    red = Reducer(results)
+    for t in space:
+        r = tres[t]
+        if not r["sigs"]:
+            continue
+        stages, cap, flag = t
+        case = _mk_tty_case(*t)
+        note = f"controlling-terminal case, flag {flag}; outcomes per repetition: {r['outcomes']}; terminal given away per repetition: {r['handed_over']}; terminal tail: {r['stderr_tail'][-200:]!r}"
+        if r["deaths"]:
+            obs = {"thread deaths": r["deaths"], "session differences": sorted(r["sigs"])}
+            keys = [_death_sig(d) for d in steady.get(t, [])] or ["race:stage-thread-died[" + "+".join(sorted({d.split(":")[0] for d in r["deaths"]})) + "]"]
+            for k in keys:
+                ctx.violation(k, CLAUSE["stage-thread-died"], {"case": case, "line": H.render(case), "signature": k if not k.startswith("race:") else "race:stage-thread-died"}, observed=obs, expected="stage threads end normally; session as before", note=note)
+            continue
+        for sig, det in r["sigs"].items():
+            equiv = (stages, cap, "none", None)
+            if sig.startswith(("tty-", "hang")):
+                m = _tty_reduce(t, sig, tres)
+                key, reduced = f"{sig}:{'|'.join(m[0])}:{m[2]}:{m[1]}", H.render(_mk_tty_case(*m)).strip()
+            elif sig.startswith("stdio"):
+                key, reduced = stdio_key(equiv, sig), None
+            else:
+                # the same thing without a terminal?  then it is that finding, under that key
+                er = red.sigs_of(equiv, sig)
+                if er is not None and sig in er:
+                    mcid = red.reduce(equiv, sig)
+                    key, reduced = key_of(mcid, sig), H.render(_mk_case(*mcid[:3])).strip()
+                else:
+                    key, reduced = f"{sig}:{'|'.join(stages)}:{cap}:none:tty/{flag}", None
+            ctx.violation(key, CLAUSE.get(sig.split("[")[0], sig), {"case": case, "line": H.render(case), "signature": sig, "reduced_to": reduced}, observed=det["observed"], expected=det["expected"], note=note)
+    ctx.sample({"line": H.render(cases[-1]), "tty": True, "flag": cases[-1]["flag"], "outcomes": res[-1]["outcomes"], "terminal_given_away": res[-1]["handed_over"], "violated": sorted(res[-1]["sigs"])})
+    handed = sum(1 for r in res if any(r["handed_over"]))
+    ctx.log(f"terminal family: {len(cases)} cases, terminal actually given away in {handed}; {len(todo)} re-run twice, dropped {dict(dropped)}; {red.extra_runs} extra runs")
+    return {"tty_cases": len(cases), "tty_cases_terminal_given_away": handed, "evaluations": len(cases) + 2 * len(todo) + red.extra_runs, "nontrivial": handed, "tty_unconfirmed_dropped": dict(dropped)}
 
 
 def run(ctx):
@@ -602,18 +726,20 @@ def run(ctx):
                 note=note,
             )
     ctx.log(f"key reduction needed {extra_runs} extra runs")
+    tty = _run_tty_family(ctx, results)
     # simplest-first artefacts
     ctx.violations.sort(key=lambda v: (v.case["case"]["fault"] is not None, _deviations(tuple(v.case["case"]["stages"]), v.case["case"]["capture"], v.case["case"]["redirect"]), len(v.case["case"]["stages"])))
 
     for cid in common.pick_samples([c for c in order if c[3] is None], ctx.seed, 5) + common.pick_samples([c for c in order if c[3] is not None], ctx.seed, 4):
         case, r = cases_by_cid[cid], results[cid]
         ctx.sample({"line": H.render(case), "fault": case["fault"], "outcomes": r["outcomes"], "acquisition_log": r["log"], "violated": sorted(r["sigs"])})
-    total = len(main_cases) + len(rec_cases) + len(fault_cases) + 2 * len(todo) + 2 * len(rare) + extra_runs
+    total = len(main_cases) + len(rec_cases) + len(fault_cases) + 2 * len(todo) + 2 * len(rare) + extra_runs + tty["evaluations"]
     nontrivial = {c for c in order if (c[3] is None and _deviations(*c[:3]) > 0)} | {_cid(c) for c, r in zip(fault_cases, fres) if r["fired"]}
     ctx.coverage.update(
         evaluations=total,
-        distinct_nontrivial=len(nontrivial),
-        rule="a fault-free case is non-trivial when it differs from the base line (`ok`, bare, no redirect) in at least one of stage kinds / capture / redirect; a fault case when the injected failure was actually reached in the re-run",
+        distinct_nontrivial=len(nontrivial) + tty["nontrivial"],
+        rule="a fault-free case is non-trivial when it differs from the base line (`ok`, bare, no redirect) in at least one of stage kinds / capture / redirect; a fault case when the injected failure was actually reached in the re-run; a controlling-terminal case when xonsh really gave the terminal away (tcsetpgrp) in at least one repetition",
+        terminal_family={k: v for k, v in tty.items() if k not in ("evaluations", "nontrivial")},
         exhaustive=True,
         main_space_cases=len(main_cases),
         fault_shapes=len(rec_cases),
@@ -636,7 +762,8 @@ def run(ctx):
         },
     )
     ctx.assumptions += [
-        "case process: session leader without controlling terminal, $XONSH_INTERACTIVE off -> terminal hand-over (tcsetpgrp) is not exercised",
+        "main space and fault enumeration: case process is a session leader without controlling terminal, $XONSH_INTERACTIVE off; terminal hand-over (tcsetpgrp/tcsetattr) is exercised by the separate controlling-terminal family only (uncaptured external commands, no faults injected there)",
+        "controlling-terminal family: harness pty as controlling terminal on fds 0/1/2, $XONSH_INTERACTIVE on, no-op SIGTTIN/SIGTTOU handlers as xonsh.main installs them; no prompt toolkit shell object (XSH.shell is None)",
         "Linux /proc is the source of truth for fds and children; quiescence = gc.collect() + real-time poll (<= 2 s) until no helper thread is alive and no child is running",
         "single faults only (one failing acquisition call per run, repeated identically in each of the 3 repetitions); Popen failures are injected at subprocess.Popen.__init__",
         "default $XONSH_SUBPROC_RAISE_ERROR (failing pipelines raise CalledProcessError, an allowed outcome)",
